@@ -200,7 +200,8 @@ def build_from_loader(rng, units, edges):
 
 
 def gen_prog(rng, incaps, thorough, dense=False):
-    from program_defs import HwInstruction
+    """raw instruction specs (sources as supplied — possibly repeated, destination, capability); the real
+    `HwInstruction` objects are built from the protocol form in `evaluate`"""
 
     if dense:
         # few registers, many source-less writers: older readers wait while younger writers run ahead
@@ -209,7 +210,7 @@ def gen_prog(rng, incaps, thorough, dense=False):
         prog = []
         for _ in range(n):
             srcs = [rng.choice(regs)] if rng.random() < 0.45 else []
-            prog.append(HwInstruction(srcs, rng.choice(regs), incaps[0] if incaps else "ALU"))
+            prog.append((list(srcs), rng.choice(regs), incaps[0] if incaps else "ALU"))
         return prog
 
     hi = 40 if thorough and rng.random() < 0.1 else 12
@@ -222,7 +223,7 @@ def gen_prog(rng, incaps, thorough, dense=False):
         dst = rng.choice(regs)
         if srcs and rng.random() < 0.3:
             dst = rng.choice(srcs)
-        prog.append(HwInstruction(srcs, dst, cap))
+        prog.append((list(srcs), dst, cap))
     return prog
 
 
@@ -277,7 +278,7 @@ def proc_from_json(pj):
 def prog_from_json(pj):
     from program_defs import HwInstruction
 
-    return [HwInstruction(list(i["srcs"]), i["dst"], i["cap"]) for i in pj]
+    return [HwInstruction(list(i.get("supplied", i["srcs"])), i["dst"], i["cap"]) for i in pj]
 
 
 def run_impl(proc, prog):
@@ -314,7 +315,8 @@ def evaluate(inp: dict) -> dict:
     # the stored orders must be the ones the implementation uses: rebuild the protocol form from the object
     pj = proc_json(proc)
     impl = run_impl(proc, prog)
-    ans = core.driver().ask({"op": "sim", "proc": pj, "prog": inp["prog"], "impl": impl})
+    intended = [{"srcs": i["srcs"], "dst": i["dst"], "cap": i["cap"]} for i in inp["prog"]]
+    ans = core.driver().ask({"op": "sim", "proc": pj, "prog": intended, "impl": impl})
     wf = bool(ans["wf"])
     st = ans.get("stats", {})
     nunits = len(pj["in"]) + len(pj["out"]) + len(pj["inout"]) + len(pj["internal"])
@@ -424,7 +426,23 @@ def gen_input(case, tier="quick"):
         proc = build_from_parts(rng, units, set())
     incaps = sorted({c for m in list(proc.in_ports) + list(proc.in_out_ports) for c in m.capabilities})
     prog = gen_prog(rng, incaps, tier == "thorough", dense=(family in ("widechain", "bypass") and rng.random() < 0.8))
-    return family, {"proc": proc_json(proc), "prog": prog_json(prog)}
+    return family, {"proc": proc_json(proc), "prog": intended_prog_json(rng, prog)}
+
+
+def intended_prog_json(rng, prog):
+    """the program as the USER means it: sources as a sorted duplicate-free list computed here, not read back from the
+    `HwInstruction` objects (their converter is code under test); now and then registers get unusual-but-legal names
+    (empty string, "0", blanks) — consistently renamed, so the dependency pattern is unchanged"""
+    raw = [(list(srcs), dst, cap) for srcs, dst, cap in prog]
+    if rng.random() < 0.06:
+        regs = sorted({r for s, d, _ in raw for r in s + [d]})
+        odd = ["", "0", " ", "r 1", "R0", "$5", "{}"]
+        rng.shuffle(odd)
+        ren = {r: (odd[k] if k < 3 and k < len(odd) else r) for k, r in enumerate(regs)}
+        if len(set(ren.values())) == len(ren):
+            raw = [([ren[r] for r in s], ren[d], c) for s, d, c in raw]
+    # "supplied": what is handed to the real constructor (repeats, any order); "srcs": what the user means by it
+    return [{"srcs": sorted(set(s)), "dst": d, "cap": c, "supplied": list(s)} for s, d, c in raw]
 
 
 def run_case(case, tier="quick") -> dict:
